@@ -591,6 +591,8 @@ class TreeFacts:
                 if len(sound) == 1:
                     return sound[0]
                 return attrs[0], attrs[1]
+            if not attrs:
+                continue            # an early return that does not look at the extent (e.g. the empty tree)
             break
         raise AnalysisError("_query_point: guard interval_contains((self.lo, self.hi), point) not found")
 
